@@ -108,26 +108,44 @@ type violation struct {
 	Detail interface{} `json:"detail"`
 }
 
-func genCommands(r *rng.R, layoutPath string) stepSpec {
-	sp := r.Intn(len(specs))
-	switch r.Intn(10) {
-	case 0, 1, 2:
-		return stepSpec{Kind: "gen", Spec: sp, Args: []string{"generate", "server", "-q", "-A", "TodoList"}, Label: "server"}
-	case 3:
-		return stepSpec{Kind: "gen", Spec: sp, Args: []string{"generate", "server", "-q", "-A", "TodoList", "--regenerate-configureapi"}, Regen: true, Label: "server --regenerate-configureapi"}
-	case 4:
-		return stepSpec{Kind: "gen", Spec: sp, Args: []string{"generate", "server", "-q", "-A", "TodoList", "-C", layoutPath}, Label: "server -C documented-layout"}
-	case 5:
-		return stepSpec{Kind: "gen", Spec: sp, Args: []string{"generate", "client", "-q", "-A", "TodoList"}, Label: "client"}
-	case 6:
-		return stepSpec{Kind: "gen", Spec: sp, Args: []string{"generate", "model", "-q"}, Label: "model"}
-	case 7:
-		return stepSpec{Kind: "gen", Spec: sp, Args: []string{"generate", "support", "-q", "-A", "TodoList"}, Label: "support"}
-	case 8:
-		return stepSpec{Kind: "gen", Spec: sp, Args: []string{"generate", "server", "-q", "-A", "TodoList", "--skip-models"}, Label: "server --skip-models"}
-	default:
-		return stepSpec{Kind: "gen", Spec: sp, Args: []string{"generate", "operation", "-q", "-A", "TodoList", "-n", "listItems"}, Label: "operation listItems"}
+// commandKinds: the generate commands a history is made of
+func commandKinds(layoutPath string) []stepSpec {
+	k := func(label string, regen bool, args ...string) stepSpec {
+		return stepSpec{Kind: "gen", Args: append([]string{"generate"}, args...), Regen: regen, Label: label}
 	}
+	return []stepSpec{
+		k("server", false, "server", "-q", "-A", "TodoList"),
+		k("server --regenerate-configureapi", true, "server", "-q", "-A", "TodoList", "--regenerate-configureapi"),
+		k("server -C documented-layout", false, "server", "-q", "-A", "TodoList", "-C", layoutPath),
+		k("client", false, "client", "-q", "-A", "TodoList"),
+		k("model", false, "model", "-q"),
+		k("support", false, "support", "-q", "-A", "TodoList"),
+		k("server --skip-models", false, "server", "-q", "-A", "TodoList", "--skip-models"),
+		k("operation listItems", false, "operation", "-q", "-A", "TodoList", "-n", "listItems"),
+		k("server --implementation-package", false, "server", "-q", "-A", "TodoList", "--implementation-package", "scratchgen/impl"),
+		k("support --implementation-package", false, "support", "-q", "-A", "TodoList", "--implementation-package", "scratchgen/impl"),
+		k("server --exclude-main", false, "server", "-q", "-A", "TodoList", "--exclude-main"),
+		k("server --skip-support --strict-responders", false, "server", "-q", "-A", "TodoList", "--skip-support", "--strict-responders"),
+		k("client --skip-models -c apiclient", false, "client", "-q", "-A", "TodoList", "--skip-models", "-c", "apiclient"),
+	}
+}
+
+func kindLabels(layoutPath string) string {
+	var ls []string
+	for _, k := range commandKinds(layoutPath) {
+		ls = append(ls, k.Label)
+	}
+	return strings.Join(ls, " | ")
+}
+
+func genCommands(r *rng.R, layoutPath string) stepSpec {
+	kinds := commandKinds(layoutPath)
+	st := kinds[0] // the plain server generation is the most frequent step
+	if !r.Chance(1, 5) {
+		st = kinds[r.Intn(len(kinds))]
+	}
+	st.Spec = r.Intn(len(specs))
+	return st
 }
 
 var userFiles = []string{"restapi/custom_middleware.go", "models/user_extra.go", "NOTES.md", "restapi/operations/items/my_helpers.go", "cmd/todo-list-server/extra.go"}
@@ -204,6 +222,20 @@ func main() {
 					}
 					h = append(h, st)
 				}
+			}
+			hist = append(hist, h)
+		}
+		// systematic histories: every command kind over the evolving spec (v1, v2, v3, back to v1) on one target, after a
+		// first server generation; the same kind with the same options must converge to the fresh generation at each version
+		for _, k := range commandKinds(layoutPath) {
+			h := []stepSpec{{Kind: "gen", Spec: 0, Args: []string{"generate", "server", "-q", "-A", "TodoList"}, Label: "server"}}
+			if strings.Contains(k.Label, "documented-layout") {
+				h[0] = stepSpec{Kind: "gen", Spec: 0, Args: k.Args, Label: k.Label}
+			}
+			for _, v := range []int{0, 1, 2, 0} {
+				st := k
+				st.Spec = v % len(specs)
+				h = append(h, st)
 			}
 			hist = append(hist, h)
 		}
@@ -423,8 +455,8 @@ func main() {
 	sort.Slice(viols, func(i, j int) bool { return viols[i].Key < viols[j].Key })
 	rep := map[string]interface{}{
 		"evaluations": evals, "distinct_nontrivial": len(pairSeen) + evals/2,
-		"rule":       fmt.Sprintf("%d random histories of length %d over {generate server | server --regenerate-configureapi | server -C <documented custom layout> | server --skip-models | client | model | support | operation} x 3 versions of one spec (parameters/properties/operations/definitions gained and lost, files shrink and grow), interleaved with user edits of the configure file and user-added files; after every step all files of the target are hashed and compared with (a) their previous state and (b) the same command run into an empty directory. Non-trivial: every step after the first of a history (it runs on a non-empty target); distinct ordered pairs of generate kinds are counted.", len(hist), *hl),
-		"samples":    samples, "coverage": cov, "violations": viols, "model_cases": len(cases), "ordered_pairs": len(pairSeen),
+		"rule":    fmt.Sprintf("%d histories (random ones of length %d, plus one systematic history per command kind walking the spec versions v1, v2, v3, v1 on one target) over {" + kindLabels(layoutPath) + "} x 3 versions of one spec (parameters/properties/operations/definitions gained and lost, files shrink and grow), interleaved with user edits of the configure file and user-added files; after every step all files of the target are hashed and compared with (a) their previous state and (b) the same command run into an empty directory. Non-trivial: every step after the first of a history (it runs on a non-empty target); distinct ordered pairs of generate kinds are counted.", len(hist), *hl),
+		"samples": samples, "coverage": cov, "violations": viols, "model_cases": len(cases), "ordered_pairs": len(pairSeen),
 	}
 	b, _ := json.MarshalIndent(rep, "", " ")
 	_ = os.WriteFile(filepath.Join(*out, "regen.json"), b, 0o644)
